@@ -22,7 +22,7 @@ RULE = ('part A: every single failure placement (missing / reader error / parse 
 ASSUMPTIONS = c07.ASSUMPTIONS + ['part B uses real files in a temp directory']
 
 FAULTS = [('source', 'absent'), ('source_error', 'reader'), ('source', 'truncated'),
-          ('source', 'synerr'), ('source', 'unresolved'), ('source', 'untyped'), ('source', 'ghost'), ('source', 'oidloop'), ('source', 'empty'),
+          ('source', 'synerr'), ('source', 'unresolved'), ('source', 'untyped'), ('source', 'macro_open'), ('source', 'ghost'), ('source', 'oidloop'), ('source', 'empty'),
           ('parser', 'parser'), ('codegen', 'codegen'), ('none', None)]
 
 
